@@ -3,7 +3,7 @@
     mirrors src/protocol/parser.rs and serializer.rs after the repairs
     2aff8f9, 19441b8, cb498ad; [dparse]/[dprint] are the oracles for Rust's
     f64 <-> decimal text conversion and are universally quantified. *)
-From Ferrous Require Import Base.Bytes Model.Resp Proofs.BytesFacts Proofs.RespFacts.
+From Ferrous Require Import Generated Base.Bytes Model.Resp Proofs.BytesFacts Proofs.RespFacts.
 Open Scope Z_scope.
 
 (** Serialising any well-formed value and parsing the bytes gives back the same
@@ -60,13 +60,15 @@ Example c20_wf_inhabited :
               FMap [FSimple (bs "k"); FSet [FBool true; FNull]]; FArray []]) = true.
 Proof. vm_compute. reflexivity. Qed.
 
-(** outside [wf] the round-trip really fails: a simple string containing CR LF *)
+(** outside [wf] the round-trip is not the identity: a simple string containing
+    CR LF reads back with the two bytes written as spaces (still one frame, see C05) *)
 Example c20_simple_crlf_refuted :
   exists f b, ser no_dprint f = (b, true) /\
-              parse_frame no_dparse max_levels b <> Done f [].
+              parse_frame no_dparse max_levels b = Done (FSimple [97; 32; 32; 98]) [] /\
+              FSimple [97; 32; 32; 98] <> f.
 Proof.
   exists (FSimple [97; 13; 10; 98]). eexists. split; [reflexivity|].
-  vm_compute. discriminate.
+  split; [vm_compute; reflexivity|discriminate].
 Qed.
 
 (** a NoResponse frame is not serialisable: the serializer stops half-way
@@ -85,3 +87,11 @@ Example c20_depth_limit :
   parse_frame no_dparse max_levels (concat (repeat (bs "*1" ++ crlf) 33) ++ bs ":7" ++ crlf) = Err /\
   exists f, parse_frame no_dparse max_levels (concat (repeat (bs "*1" ++ crlf) 32) ++ bs ":7" ++ crlf) = Done f [].
 Proof. split; [vm_compute; reflexivity|]. eexists. vm_compute. reflexivity. Qed.
+
+(** table regenerated from parser.rs: every recursive call of an aggregate parser (array
+    element, map key, map value, set member) passes depth + 1, so the nesting limit bounds
+    the recursion through every position *)
+Theorem c20_every_recursion_counts_depth :
+  length parser_depth_args = 4%nat /\
+  forallb (fun p => beq (snd p) (bs "depth + 1")) parser_depth_args = true.
+Proof. split; vm_compute; reflexivity. Qed.
